@@ -125,7 +125,7 @@ def run_profiles(chk, prop, profiles, on, strict_too=True, timeout=900, tag="", 
     on_all = sorted(set(on) | ({"S"} if strict_too else set()))
     consts = {"LENIENT": "TRUE", "ON": on_set(on_all)}
     if kind == "tree":
-        consts.update({"F": 15, "BUGGY_F2": "FALSE", "BUGGY_F3": "FALSE", "BUGGY_F15": "FALSE", "BUGGY_F16": "FALSE", "BUGGY_F18": "FALSE", "BUGGY_F19": "FALSE", "BUGGY_F20": "FALSE"})
+        consts.update({"F": 15, "BUGGY_F2": "FALSE", "BUGGY_F3": "FALSE", "BUGGY_F15": "FALSE", "BUGGY_F16": "FALSE", "BUGGY_F18": "FALSE", "BUGGY_F19": "FALSE", "BUGGY_F20": "FALSE", "BUGGY_F21": "FALSE"})
     cfg = write_cfg(os.path.join(BUILD, "cfg", "tt_%s%s.cfg" % (prop, tag)), constants=consts, view="TView")
     jobs = []
     for i, args in enumerate(profiles):
